@@ -63,6 +63,8 @@ class Engine:
         if prefix:
             self.plan = _snap(prefix)
             self.fixed = len(self.plan) if fixed is None else fixed
+        self.known_sigs = []    # (finding id, compiled regex) of listed known findings
+        self.known_hits = {}
         self.chunk = chunk      # explore at most this many paths, then hand the pending alternatives back as continuations
         self.conts = []
         self.split_depth = split_depth
@@ -321,6 +323,14 @@ class Engine:
         return out
 
     def _fail(self, what, sig, model):
+        s_ = sig or str(what)
+        for kid, rx in self.known_sigs:
+            if rx.fullmatch(s_):
+                # a listed known finding: remember one witness, keep exploring this path
+                if kid not in self.known_hits:
+                    self.known_hits[kid] = {'what': str(what), 'sig': s_, 'inputs': self._model_inputs(model), 'choices': list(self.choices)}
+                self.proved += 1
+                return
         self.failures.append({'what': str(what), 'sig': sig or str(what), 'inputs': self._model_inputs(model),
                               'choices': list(self.choices)})
         self._abort(PathAbort('check failed'))
@@ -555,6 +565,8 @@ class ConcreteEngine:
         self.obs = []
         self.cuts = set()
         self.assume_failed = False
+        self.known_sigs = []
+        self.known_hits = []
 
     def _get(self, name, default):
         return self.inputs_given.get(name, default)
@@ -591,7 +603,12 @@ class ConcreteEngine:
 
     def check(self, cond, what='', sig=None):
         if not cond:
-            self.failed.append({'what': str(what), 'sig': sig or str(what)})
+            s_ = sig or str(what)
+            for kid, rx in getattr(self, 'known_sigs', []):
+                if rx.fullmatch(s_):
+                    self.known_hits.append(kid)
+                    return
+            self.failed.append({'what': str(what), 'sig': s_})
             raise PathAbort('check failed')
 
     def fail_exception(self, ex, sig=None):
@@ -1456,6 +1473,14 @@ class SymStr:
         return (mk(self.eng, self.chars[:i]), sep, mk(self.eng, self.chars[i + n:]))
 
     def join(self, items):
+        items = list(items)
+        for it in items:
+            if isinstance(it, SymStr) and it._c is None:
+                # joining text that has not been rendered yet stays lazy
+                return SymStr.lazy(self.eng, lambda: chars_of(SymStr(self.eng, self.chars)._join_now(items)))
+        return self._join_now(items)
+
+    def _join_now(self, items):
         out = []
         for k, it in enumerate(items):
             if k:
